@@ -102,7 +102,7 @@ func TestMain(m *testing.M) {
 		"start (a query that blocks while executing: engine = LowMem query whose first column file is a FIFO, distributed = stub Querier with a harness-owned result channel), " +
 		"start-error (a query that fails after admission: engine = unknown interface / unparsable DB directory, distributed = host selector 'any' with a Querier that cannot list hosts / resolver error), " +
 		"start-precancelled (context already cancelled), release i (good bytes / garbage / short write / immediate close; distributed: rows / host error / closed channel), " +
-		"cancel i then release it, distributed only: cancel i without any host reply, handoff (start j while all slots are taken and release i without waiting, semaphore timeout 1 ms / 30 ms / 300 ms); " +
+		"cancel i then release it, distributed only: cancel i without any host reply, handoff (start j while all slots are taken and release i without waiting, semaphore timeout 1 ms / 30 ms / 300 ms), handoff-cancel (start j while all slots are taken, cancel j while it waits for a slot, then release i within j's timeout); " +
 		"then all remaining queries are released and L+1 fresh queries probe the slots; " +
 		"non-trivial = the burst contains >= 1 rejected, >= 1 failed (failed read or error return after admission) and >= 1 cancelled query; distinct by the JSON of (backend, L, events, drain mode)")
 	evid.Assume("a query whose FIFO has been opened by a worker (engine) / whose Querier.Query call was entered (distributed) and which the harness has not released is executing; nothing else counts as executing",
@@ -122,7 +122,7 @@ func TestMain(m *testing.M) {
 // case description
 
 type op struct {
-	K   string `json:"k"`           // start | starterr | startpc | release | cancel | cancelonly | handoff
+	K   string `json:"k"`           // start | starterr | startpc | release | cancel | cancelonly | handoff | handoffcancel
 	Sel int    `json:"s,omitempty"` // selects among the executing queries
 	How string `json:"h,omitempty"` // good | garbage | short | eof
 	Var int    `json:"v,omitempty"` // error kind / handoff timeout index
@@ -138,7 +138,7 @@ type caseSpec struct {
 var hows = []string{"good", "good", "garbage", "short", "eof"}
 
 func genCase(t *rapid.T, backend string) caseSpec {
-	kinds := []string{"start", "start", "start", "start", "starterr", "startpc", "release", "release", "release", "cancel", "cancel", "handoff"}
+	kinds := []string{"start", "start", "start", "start", "starterr", "startpc", "release", "release", "release", "cancel", "cancel", "handoff", "handoffcancel"}
 	if backend == "distributed" {
 		kinds = append(kinds, "cancelonly")
 	}
@@ -157,6 +157,9 @@ func genCase(t *rapid.T, backend string) caseSpec {
 		case "handoff":
 			o.Sel = rapid.IntRange(0, 2).Draw(t, "sel")
 			o.Var = rapid.IntRange(0, 2).Draw(t, "ka")
+		case "handoffcancel":
+			o.Sel = rapid.IntRange(0, 2).Draw(t, "sel")
+			o.Var = rapid.IntRange(1, 2).Draw(t, "ka") // a timeout long enough for the slot to be freed while the query waits
 		}
 		c.Ops = append(c.Ops, o)
 	}
@@ -833,7 +836,7 @@ func (b *burst) pick(sel int, uncancelledOnly bool) *qry {
 var handoffKA = []time.Duration{time.Millisecond, rejectKA, admitKAShrinking}
 
 func (b *burst) apply(o op) *verdict {
-	isStart := o.K == "start" || o.K == "starterr" || o.K == "startpc" || o.K == "handoff"
+	isStart := o.K == "start" || o.K == "starterr" || o.K == "startpc" || o.K == "handoff" || o.K == "handoffcancel"
 	if isStart && b.starts >= maxStarts {
 		b.class("op:skipped")
 		return nil
@@ -882,7 +885,8 @@ func (b *burst) apply(o op) *verdict {
 		b.logf("cancel %s without any reply -> returned: %s", q.name, q.out)
 		b.class("q:cancelled-noreply")
 		return nil
-	case "handoff":
+	case "handoff", "handoffcancel":
+		cancelWaiting := o.K == "handoffcancel"
 		if len(b.exec) < b.L {
 			b.starts++
 			return b.start("q", kBlocking, false)
@@ -895,6 +899,15 @@ func (b *burst) apply(o op) *verdict {
 		}
 		desc := fmt.Sprintf("handoff: start %s (semaphore timeout %v) with %d/%d slots taken %s, release %s without waiting", q.name, q.ka, len(b.exec), b.L, b.execNames(), old.name)
 		b.launch(q)
+		if cancelWaiting {
+			// the query is cancelled while it waits for a slot; the slot is freed afterwards, within its timeout
+			desc = fmt.Sprintf("handoff: start %s (semaphore timeout %v) with %d/%d slots taken %s, cancel it while it waits, then release %s", q.name, q.ka, len(b.exec), b.L, b.execNames(), old.name)
+			time.Sleep(2 * time.Millisecond)
+			q.cancel()
+			q.cancelled = true
+			b.nCancelled++
+			time.Sleep(time.Millisecond)
+		}
 		if err := b.be.release(old, "good"); err != nil {
 			return inconclusive("harness: releasing %s: %v", old.name, err)
 		}
@@ -912,10 +925,26 @@ func (b *burst) apply(o op) *verdict {
 			b.logf("%s -> %s returned: %s; %s executing", desc, old.name, old.out, q.name)
 			q.st = stExecuting
 			b.exec = append(b.exec, q)
+			if cancelWaiting {
+				// admitted with a cancelled context: it may end by itself (distributed) or only once its blocked
+				// read is served (engine) — release it and wait for it, as the cancel event does
+				b.class("handoffcancel:admitted")
+				return b.finish(q, "good", "cancelled while waiting, admitted; release")
+			}
 			b.class("handoff:admitted")
 			return nil
 		}
 		b.logf("%s -> %s returned: %s; %s returned: %s", desc, old.name, old.out, q.name, q.out)
+		if cancelWaiting {
+			// rejected, or admitted and ended by its cancelled context: either way it holds no slot any more (quiescent check)
+			if q.out.rejected() {
+				b.nRejected++
+				b.class("handoffcancel:rejected")
+			} else {
+				b.class("handoffcancel:returned")
+			}
+			return nil
+		}
 		if !q.out.rejected() {
 			return violation("C31:reject-status", "%s was started while %d queries were executing (limit %d), did not execute and was not answered with status %q: %s",
 				q.name, b.L, b.L, types.StatusTooManyRequests, q.out)
